@@ -1,0 +1,145 @@
+//go:build verif
+
+// Contracts for the govc verifier (see /verif/DESIGN.md). Comment-only file.
+package algz
+
+// ---------------------------------------------------------------------------------------------------------------
+// Trie leaf functions (C05): the children of a node are kept strictly ascending by rune value.
+// ---------------------------------------------------------------------------------------------------------------
+//@ spec kidsAscending(c bytes_any) bool = forall i in 0..len(c): forall j in 0..len(c): i < j ==> c[i].val < c[j].val
+
+//@ func Trie.index
+//@   noalloc
+//@   requires kidsAscending(children)
+//@   ensures -1 <= result && result < len(children)
+//@   ensures result >= 0 ==> children[result].val == val
+//@   ensures result == -1 ==> forall i in 0..len(children): children[i].val != val
+//@   loop 1:
+//@     invariant 0 <= low && low <= high && high <= len(children)
+//@     invariant forall i in 0..low: children[i].val < val
+//@     invariant forall i in high..len(children): children[i].val > val
+//@     decreases high - low
+
+//@ func Trie.findChildIndex
+//@   noalloc
+//@   requires kidsAscending(children)
+//@   ensures 0 <= result && result <= len(children)
+//@   ensures forall i in 0..result: children[i].val < val
+//@   ensures forall i in result..len(children): children[i].val >= val
+//@   loop 1:
+//@     invariant 0 <= low && low <= high && high <= len(children)
+//@     invariant forall i in 0..low: children[i].val < val
+//@     invariant forall i in high..len(children): children[i].val >= val
+//@     decreases high - low
+
+// decodeRune is the exact UTF-8 decoding at byte i, except that a byte which is not part of a valid encoding becomes
+// its own symbol above the Unicode range (so that it can only ever equal the same byte)
+//@ func decodeRune
+//@   requires 0 <= i && i < len(s)
+//@   ensures result2 == widthAt(s, i) && 1 <= result2 && i + result2 <= len(s)
+//@   ensures result1 == ite(runeAt(s, i) == 65533 && widthAt(s, i) == 1, 1114112 + s[i], runeAt(s, i))
+//@   ensures result1 >= 1114112 ==> (result2 == 1 && result1 == 1114112 + s[i])
+
+//@ func runeLen
+//@   ensures r >= 1114112 ==> result == 1
+//@   ensures (0 <= r && r < 128) ==> result == 1
+//@   ensures (128 <= r && r < 2048) ==> result == 2
+
+// ---------------------------------------------------------------------------------------------------------------
+// mergeScopes (C06): the occurrences reported by find are ordered by their end; merging produces disjoint,
+// increasing scopes that cover exactly the same byte positions.
+// ---------------------------------------------------------------------------------------------------------------
+// scopes as find produces them: non-empty, ends non-decreasing
+//@ spec scopesIn(s bytes_any) bool = (forall k in 0..len(s): s[k].start < s[k].stop) && (forall i in 0..len(s): forall j in 0..len(s): i < j ==> s[i].stop <= s[j].stop)
+// disjoint and increasing
+//@ spec scopesOut(s bytes_any) bool = (forall k in 0..len(s): s[k].start < s[k].stop) && (forall i in 0..len(s): forall j in 0..len(s): i < j ==> s[i].stop <= s[j].start)
+//@ spec within(s bytes_any, lim int) bool = forall k in 0..len(s): 0 <= s[k].start && s[k].stop <= lim
+//@ spec covers(s bytes_any, n int, p int) bool = exists k in 0..n: s[k].start <= p && p < s[k].stop
+// p is covered by the scope that the witness sequence w names for it
+//@ spec covW(s bytes_any, n int, w seq, p int) bool = 0 <= w[p] && w[p] < n && s[w[p]].start <= p && p < s[w[p]].stop
+
+// w0 is a choice of a covering old scope for every covered position (skolemised "exists"); wc is kept as the same
+// for the current scopes, so that both directions of "covers the same positions" are universally quantified facts.
+//@ func Trie.mergeScopes
+//@   ghostparam lim
+//@   ghost n0 = len(*sp)
+//@   ghost w0 = witness p: k in 0..len(*sp): (*sp)[k].start <= p && p < (*sp)[k].stop
+//@   ghost wc = w0
+//@   requires sp != nil && scopesIn(*sp) && within(*sp, lim)
+//@   modifies *sp, (*sp)[0:len(*sp)]
+//@   ensures scopesOut(*sp) && len(*sp) <= old(len(*sp)) && within(*sp, lim)
+//@   ensures forall p: covers(*sp, len(*sp), p) ==> old(covers(*sp, len(*sp), p))
+//@   ensures forall p: old(covers(*sp, len(*sp), p)) ==> covers(*sp, len(*sp), p)
+//@   loop 1:
+//@     invariant 0 <= i && i <= len(scopes) && (len(scopes) > 0 ==> i < len(scopes)) && len(scopes) <= n0 && sameArray(scopes, old(*sp)) && scopes.off == old((*sp).off)
+//@     invariant unchangedOutside(scopes, 0, n0)
+//@     invariant forall k in 0..len(scopes): scopes[k].start < scopes[k].stop
+//@     invariant within(scopes, lim)
+//@     invariant forall a in 0..len(scopes): forall b in 0..len(scopes): a < b ==> scopes[a].stop <= scopes[b].stop
+//@     invariant forall a in 0..i+1: forall b in 0..i+1: (a < b && b < len(scopes)) ==> scopes[a].stop <= scopes[b].start
+//@     invariant forall k in 0..len(scopes): forall p: (scopes[k].start <= p && p < scopes[k].stop) ==> covW(old(*sp), n0, w0, p)
+//@     invariant forall p: covW(old(*sp), n0, w0, p) ==> covW(scopes, len(scopes), wc, p)
+//@     decreases 2*len(scopes) - i
+//@   at after-call2:
+//@     ghost wc = seqdef p: ite(wc[p] > i+1, wc[p]-1, ite(wc[p] == i+1, i, wc[p]))
+
+// find's output shape is ASSUMED here (trusted contract): non-empty scopes inside the text, ends non-decreasing, in a
+// freshly allocated slice. It depends on the whole Aho-Corasick structure (node sizes, failure links), which is not
+// under contract; the bounded harness checks this very shape on every enumerated (patterns, text) pair.
+//@ func Trie.find
+//@   trusted
+//@   requires scopes != nil && len(*scopes) == 0
+//@   modifies *scopes
+//@   ensures scopesIn(*scopes) && within(*scopes, len(text)) && fresh(*scopes)
+
+// Replace / ReplaceWithMask never panic, for every text and every trie (given find's shape)
+//@ func Trie.Replace
+//@   ghost lim = len(text)
+//@   loop 1:
+//@     invariant 0 <= begin && begin <= len(text) && scopesOut(scopes) && within(scopes, len(text))
+//@     invariant idx1 < len(scopes) ==> begin <= scopes[idx1].start
+//@     invariant idx1 > 0 ==> begin == scopes[idx1-1].stop
+//@     invariant (cap(buf.buf) == 0 || fresh(buf.buf)) && oldUntouched(buf.buf)
+
+//@ func Trie.ReplaceWithMask
+//@   ghost lim = len(text)
+//@   loop 1:
+//@     invariant 0 <= begin && begin <= len(text) && scopesOut(scopes) && within(scopes, len(text))
+//@     invariant idx1 < len(scopes) ==> begin <= scopes[idx1].start
+//@     invariant idx1 > 0 ==> begin == scopes[idx1-1].stop
+//@     invariant (cap(buf.buf) == 0 || fresh(buf.buf)) && oldUntouched(buf.buf)
+//@   loop 2:
+//@     invariant 0 <= i && i <= num && (cap(buf.buf) == 0 || fresh(buf.buf)) && oldUntouched(buf.buf)
+
+// ---------------------------------------------------------------------------------------------------------------
+// trieNodeQueue (used by BuildFailureLinks): memory safety of the ring buffer incl. its growth path. The FIFO view
+// (index arithmetic modulo a capacity 10*2^k) is not under contract: bounded harness through BuildFailureLinks.
+// ---------------------------------------------------------------------------------------------------------------
+//@ spec qShape(q ref) bool = q != nil && q.cap >= 1 && len(q.nodes) == q.cap && q.cap <= 1073741824
+
+//@ func trieNodeQueue.Init
+//@   requires q != nil && 1 <= cap && cap <= 1073741824
+//@   modifies q.nodes, q.cap
+//@   ensures qShape(q) && q.cap == cap && fresh(q.nodes)
+
+//@ func trieNodeQueue.IsFull
+//@   inline
+//@ func trieNodeQueue.IsEmpty
+//@   inline
+
+//@ func trieNodeQueue.Len
+//@   requires q != nil
+//@   ensures result == wrap32(q.tail - q.head)
+
+//@ func trieNodeQueue.Push
+//@   wraps
+//@   requires qShape(q) && q.cap <= 536870912
+//@   modifies q.nodes, q.cap, q.head, q.tail, q.nodes[0:len(q.nodes)]
+//@   ensures qShape(q) && (q.cap == old(q.cap) || q.cap == 2 * old(q.cap))
+
+//@ func trieNodeQueue.Pop
+//@   wraps
+//@   requires qShape(q)
+//@   modifies q.head
+//@   ensures old(q.head) == old(q.tail) ==> (result == nil && q.head == old(q.head))
+//@   ensures old(q.head) != old(q.tail) ==> (result == q.nodes[old(q.head) % q.cap] && q.head == wrap32(old(q.head) + 1))
